@@ -236,6 +236,9 @@ class Harness:
             r = self.reqs.get(op[1])
             if r is not None and r.timer is not None:
                 self.atomic(r.timer.reschedule, op[2])
+        elif k == 'cfg':
+            # settings combination: results are reported but not stored in request.results
+            self.settings.searches.send.store_results = bool(op[1])
         elif k == 'settle':
             self.settle()
         elif k == 'run':
@@ -287,6 +290,8 @@ def gen_ops(rng, n):
         return rng.choice([0, 1, issued + 2, issued + 3, 999, MAXT])
 
     style = rng.choice(['mixed', 'mixed', 'timers', 'instant', 'wish'])
+    if rng.random() < 0.3:
+        ops.append(['cfg', False])
     for _ in range(n):
         r = rng.random()
         if style == 'instant' and issued and r < 0.35:
@@ -351,6 +356,8 @@ def directed_histories():
     for mid in ([['X', 2, False]], [['run', 3]], [['settle'], ['lag', 3], ['settle']], [['C', 2]], [['T', 2, 1], ['run', 1]], []):
         out.append([['S', 'net', 3], ['Rs', 2]] + [list(a) for a in mid] + [['Rf'], ['run', 50]])
         out.append([['S', 'net', 0], ['Rs', 2], ['Rs', 2]] + [list(a) for a in mid] + [['Rf'], ['R', 2], ['Rf'], ['run', 50]])
+    for store in (False, True):
+        out.append([['cfg', store], ['S', 'net', 3], ['R', 2], ['Rs', 2], ['Rf'], ['R', 9], ['run', 5], ['R', 2]])
     for tau in (0, 5):
         for destroy in (True, False):
             out.append([['S', 'net', tau], ['S', 'user', tau], ['L', destroy], ['S', 'net', tau], ['R', 2], ['R', 3], ['run', 2], ['S', 'room', 3], ['R', 2], ['run', 50], ['R', 4], ['R', 2]])
@@ -374,6 +381,8 @@ def monitor(ops, obs):
     lag = False
     fired = {}
     armed_dead = {}
+    storing = True
+    delivered = {}
     for op, o in zip(ops, obs):
         now_before = None
         k = op[0]
@@ -381,6 +390,8 @@ def monitor(ops, obs):
         was_live = set(live)
         if k == 'lag':
             lag = True
+        if k == 'cfg':
+            storing = bool(op[1])
         if k in ('settle', 'run'):
             for x in ran_since_start:
                 ran_since_start[x] = True
@@ -400,6 +411,8 @@ def monitor(ops, obs):
                     ran_since_start[t] = False
             elif e[0] == 'result':
                 _, t, rid, rt = e
+                if storing:
+                    delivered[t] = delivered.get(t, 0) + 1
                 if not (k in ('R', 'Rs') and t == op[1] and rt == t and t in was_live):
                     shape = 'after-manual-removal' if t in manual else ('after-timeout' if removed_ev.get(t) else 'unknown-ticket')
                     viol.append(('result-for-dead-request:' + shape, f'SearchResultEvent for ticket {t} which is not a live request', {}))
@@ -447,6 +460,10 @@ def monitor(ops, obs):
                 if tk not in live:
                     armed_dead[tk] = True
                 ran_since_start[tk] = False
+        for t, n in o.get('stored', []):
+            if n != delivered.get(t, 0):
+                viol.append(('stored-results-differ-from-reported-results', f'request {t} stores {n} results but {delivered.get(t, 0)} were reported while store_results was on', {}))
+                break
         if set(o['requests']) != live:
             viol.append(('requests-map-differs-from-history', f'requests={o["requests"]} but the event history says {sorted(live)}', {}))
     # exactly once, eventually (every history ends with a long quiet run)
@@ -504,7 +521,7 @@ def z(n):
 
 def ev_coq(op):
     k = op[0]
-    if k in ('Rf', 'L'):
+    if k in ('Rf', 'L', 'cfg'):
         return []
     if k == 'S':
         return [f'OEv (Search {z(op[2])})']
@@ -720,8 +737,8 @@ def run(run: Run):
     nrand = 350 if run.tier == 'quick' else 3000
     hist = directed_histories()
     if run.tier == 'quick':
-        keep = [h for h in hist if any(op[0] in ('Rs', 'L') for op in h)]
-        rest = [h for h in hist if not any(op[0] in ('Rs', 'L') for op in h)]
+        keep = [h for h in hist if any(op[0] in ('Rs', 'L', 'cfg') for op in h)]
+        rest = [h for h in hist if not any(op[0] in ('Rs', 'L', 'cfg') for op in h)]
         run.rng.shuffle(rest)
         hist = keep + rest[:230]
     for i in range(nrand):
@@ -779,6 +796,15 @@ def run(run: Run):
 
     # the real periodic wishlist task with the server-provided interval (monitor only)
     periodic_wishlist(run, found)
+    for kind, yields in (('net', 1), ('room', 2), ('user', 1), ('wish', 1), ('wish', 3)):
+        try:
+            bad = suspending_listeners(kind, 5, yields)
+        except Exception as e:
+            bad = [f'{type(e).__name__}: {e}']
+        run.case({'suspending_listeners': kind, 'yields': yields}, kind='suspending-listeners')
+        if bad and 'event-delivery-cut-off-by-suspending-listener' not in found:
+            found.add('event-delivery-cut-off-by-suspending-listener')
+            run.add_finding(Finding('event-delivery-cut-off-by-suspending-listener', bad[0], {'suspending_listeners': kind, 'yields': yields}, observed=bad))
     for kind in ('net', 'room', 'user'):
         try:
             bad = cancelled_creator(kind)
@@ -802,6 +828,67 @@ def periodic_wishlist(run: Run, found):
         if bad and 'periodic-wishlist' not in found:
             found.add('periodic-wishlist')
             run.add_finding(Finding('periodic-wishlist', bad[0], {'interval': ival, 'items': nitems, 'rounds': rounds}, observed=bad))
+
+
+def suspending_listeners(kind, tau=5, yields=1):
+    """A request times out while the listeners of SearchRequestRemovedEvent are coroutines that really suspend
+    (await asyncio.sleep(0) `yields` times), followed by a plain listener; also a suspending listener of
+    SearchResultEvent for a reply.  Every listener must receive each event completely, exactly once, the removal at
+    the deadline.  kind: 'net' | 'room' | 'user' | 'wish'.  -> list of problems"""
+    from aioslsk.settings import WishlistSettingEntry
+    from aioslsk.events import SearchRequestRemovedEvent, SearchResultEvent, MessageReceivedEvent
+    from aioslsk.protocol.messages import PeerSearchReply
+    h = Harness()
+    try:
+        seen = []
+
+        async def slow_removed(event):
+            seen.append(('removed-begin', event.query.ticket, h.t()))
+            for _ in range(yields):
+                await asyncio.sleep(0)
+            seen.append(('removed-end', event.query.ticket, h.t()))
+
+        def late_removed(event):
+            seen.append(('removed-late-listener', event.query.ticket, h.t()))
+
+        async def slow_result(event):
+            seen.append(('result-begin', event.query.ticket, h.t()))
+            for _ in range(yields):
+                await asyncio.sleep(0)
+            seen.append(('result-end', event.query.ticket, h.t()))
+        h._more = (slow_removed, late_removed, slow_result)
+        h.bus.register(SearchRequestRemovedEvent, slow_removed, priority=10)
+        h.bus.register(SearchRequestRemovedEvent, late_removed, priority=500)
+        h.bus.register(SearchResultEvent, slow_result, priority=10)
+        if kind == 'wish':
+            h.settings.searches.send.wishlist_request_timeout = tau
+            h.settings.searches.wishlist = [WishlistSettingEntry(query='w', enabled=True)]
+            h.loop.run_coro(h.mgr._wishlist_job())
+        else:
+            h.settings.searches.send.request_timeout = tau
+            fn = {'net': lambda: h.mgr.search('q'), 'room': lambda: h.mgr.search_room('room', 'q'), 'user': lambda: h.mgr.search_user('bob', 'q')}[kind]
+            h.loop.run_coro(fn())
+        tk = sorted(h.mgr.requests)[0]
+        t0 = h.t()
+        msg = PeerSearchReply.Request(username='peer', ticket=tk, results=[], has_slots_free=True, avg_speed=1, queue_size=0, locked_results=[])
+        h.loop.run_coro(h.bus.emit(MessageReceivedEvent(msg, h.Conn())))
+        h._track()
+        h.loop.run_for(tau + 20)
+        h.settle()
+        want = [('result-begin', tk, t0), ('result-end', tk, t0), ('removed-begin', tk, t0 + tau), ('removed-end', tk, t0 + tau),
+                ('removed-late-listener', tk, t0 + tau)]
+        bad = []
+        if seen != want:
+            missing = [w for w in want if w not in seen]
+            bad.append(f'request {tk} ({kind}, timeout {tau}): listeners that suspend saw {seen}; missing {missing} '
+                       f'(every listener must receive the removal completely, once, at {t0 + tau})')
+        if tk in h.mgr.requests:
+            bad.append(f'request {tk} is still registered after its timeout')
+        if h.loop.unhandled or any(e[0] in ('errkey', 'other') for e in h.events):
+            bad.append(f'errors: {[e for e in h.events if e[0] in ("errkey", "other")]} {[c.get("message") for c in h.loop.unhandled]}')
+        return bad
+    finally:
+        h.close()
 
 
 def cancelled_creator(kind, tau=5):
@@ -894,6 +981,10 @@ def replay(rep) -> int:
         vals = [next(g) for _ in range(n)]
         bad = vals[-1] == first or not (1 <= vals[-1] <= MAXT)
         print(f'ticket_generator(): first ticket {first}, ticket after {n} more issues: {vals[-1]}')
+        return 1 if bad else 0
+    if 'suspending_listeners' in wit:
+        bad = suspending_listeners(wit['suspending_listeners'], 5, wit.get('yields', 1))
+        print('suspending listeners:', bad)
         return 1 if bad else 0
     if 'cancelled_creator' in wit:
         bad = cancelled_creator(wit['cancelled_creator'])
